@@ -45,7 +45,7 @@ ASSUMPTIONS = [
 ]
 
 FAMILIES_QUICK = [("edits", 6, {}), ("tamper", 6, {}), ("dirs", 6, {}), ("cutoff", 3, {}), ("alias", 3, {}), ("nocache", 3, {}),
-                  ("taintedit", 4, {}), ("relocate", 4, {}), ("disabled", 4, {}), ("samehash", 0, {}), ("edits", 3, {"minimal": True}),
+                  ("taintedit", 4, {}), ("relocate", 4, {}), ("disabled", 4, {}), ("samehash", 4, {}), ("edits", 3, {"minimal": True}),
                   ("wipe", 3, {}), ("wipe", 3, {"minimal": True})]
 FAMILIES_THOROUGH = [(f, n * 15, kw) for f, n, kw in FAMILIES_QUICK]
 
